@@ -1,6 +1,9 @@
 import NetaddrVerif.Model.Proto
 import NetaddrVerif.Model.Address
-/-! Driver ops of property C14: `arith A:ver:val op X` · `ctor X ver|-` · `conv A:ver:val`. -/
+/-! Driver ops of property C14: `arith A:ver:val op X` · `ctor X ver|-` · `conv A:ver:val`.
+`arith` ops: add radd sub rsub · iadd isub (run statement by statement, `Address.Inplace`; the
+observable part of the event log is appended) · or and xor · shl shr (any operand: negative
+counts, addresses) · rshl rshr (`n << a`, `n >> a`). -/
 namespace NV.Driver.C14
 open NV NV.Proto NV.Address
 
@@ -22,6 +25,15 @@ def showArith (a : Addr) (r : R Addr) (inplace : Bool) : String :=
   let after := if inplace then (stepInplace a r).1 else a
   showRes r ++ "~" ++ showAddr after
 
+/-- an in-place operator run statement by statement: result, receiver afterwards, and the
+    reads/writes of the receiver's attributes in order -/
+def showInplace (st : Inplace.St) : String :=
+  let (after, err) := st.result
+  let res := match err with
+    | none => showAddr after
+    | some e => showErr e
+  res ++ "~" ++ showAddr after ++ "~" ++ ",".intercalate (st.log.filterMap Inplace.Ev.observable)
+
 def handle (op : String) (args : List String) : Option String :=
   match op, args with
   | "arith", [a, o, x] => do
@@ -32,13 +44,15 @@ def handle (op : String) (args : List String) : Option String :=
     | "radd", .int n => pure (showArith a (radd a n) false)
     | "sub", .int n => pure (showArith a (sub a n) false)
     | "rsub", .int n => pure (showArith a (rsub a n) false)
-    | "iadd", .int n => pure (showArith a (iadd a n) true)
-    | "isub", .int n => pure (showArith a (isub a n) true)
+    | "iadd", .int n => pure (showInplace (Inplace.iaddRun a n))
+    | "isub", .int n => pure (showInplace (Inplace.isubRun a n))
     | "or", x => pure (showArith a (or_ a x) false)
     | "and", x => pure (showArith a (and_ a x) false)
     | "xor", x => pure (showArith a (xor_ a x) false)
-    | "shl", .int n => if n < 0 then none else pure (showArith a (shl a n.toNat) false)
-    | "shr", .int n => if n < 0 then none else pure (showArith a (shr a n.toNat) false)
+    | "shl", x => pure (showArith a (lshift a x) false)
+    | "shr", x => pure (showArith a (rshift a x) false)
+    | "rshl", .int n => pure (showArith a (rlshift a n) false)
+    | "rshr", .int n => pure (showArith a (rrshift a n) false)
     | _, _ => none
   | "ctor", [x, ver] => do
     let x ← parseInt x
